@@ -246,6 +246,27 @@ func c02Main(r *engine.Run) {
 	}
 	r.Sample("pair", pairCase{A: hf[0].WKT, B: hf[4].WKT})
 	{
+		bigA := bigOperands(universe.Identity)
+		var jobs [][2]Operand
+		for _, sh := range [][2]float64{{0, 0}, {0.5, 0.5}, {1, 0}, {3, 2.5}, {7, 0}} {
+			s := universe.Affine{A: 1, D: 1, TX: sh[0], TY: sh[1], Name: fmt.Sprintf("shift(%g,%g)", sh[0], sh[1])}
+			bigB := bigOperands(s)
+			for _, a := range bigA {
+				for _, b := range bigB {
+					jobs = append(jobs, [2]Operand{a, b})
+				}
+			}
+			for _, b := range bigB {
+				for i := 0; i < len(ops); i += len(ops)/25 + 1 {
+					jobs = append(jobs, [2]Operand{ops[i], b})
+				}
+			}
+		}
+		if r.Parallel(len(jobs), func(k int) { c02Pair(r, jobs[k][0], jobs[k][1], true) }) {
+			r.Bound(fmt.Sprintf("many-part operands × 5 translations × each other and a reduced alphabet: %d pairs", len(jobs)))
+		}
+	}
+	{
 		lvl := 0
 		if r.Thorough() {
 			lvl = 1
